@@ -106,10 +106,13 @@ def gen_moved_cases(tier, seed):
         r = vlib.case_rng(seed, PID, 50000 + i)
         body = []
         marks = []
+        mapped = r.random() < 0.25
         for j in range(r.randint(1, 5)):
             k = r.choice("-+")
             text = "moved %d %s" % (j, gdiff.gline(r, allow_tabs=False).replace("\x1b", ""))
             ps = random_sgr(r)
+            if mapped and j == 0:
+                ps = r.choice(["1;35", "1;36"])       # git's colorMoved defaults, the keys of the map
             if r.random() < 0.15:
                 ps = "31" if k == "+" else "32"    # the *other* side's plain colour is not the default for this side
             form = r.random() < 0.7
@@ -117,7 +120,6 @@ def gen_moved_cases(tier, seed):
             body.append(line)
             marks.append((k, ps, text))
         lines = ["diff --git a/f.txt b/f.txt", "index 1..2 100644", "--- a/f.txt", "+++ b/f.txt", "@@ -1,9 +1,9 @@", " ctx"] + body + [" end"]
-        mapped = r.random() < 0.25
         cases.append({"lines": lines, "marks": marks, "mapped": mapped, "mode": r.choice(MODES[:6])})
     return cases
 
@@ -205,8 +207,9 @@ def main(tier, replay=None):
             got = {(cl[1], cl[2], cl[3]) for cl in cells if cl[0] != " "}
             mapped_key = c["mapped"] and want in (sgr_state("1;35"), sgr_state("1;36"))
             if mapped_key:
-                exp_fg = ("p", 5) if want == sgr_state("1;35") else ("p", 4)
-                okk = all(g[0] == exp_fg for g in got)
+                # `syntax magenta` / `syntax blue`: the foreground is the highlighter's, the background the mapped colour
+                exp_bg = ("p", 5) if want == sgr_state("1;35") else ("p", 4)
+                okk = all(g[1] == exp_bg for g in got)
             else:
                 okk = got <= {want}
             if not okk:
